@@ -339,5 +339,95 @@ pub fn generate_tools(sink: &mut Sink, seed: u64, thorough: bool) {
         let impl_line = if got.is_empty() { "-".to_string() } else { got.iter().map(|(c, k)| format!("{},{},{},{},{},{}", c[0].to_bits(), c[1].to_bits(), c[2].to_bits(), k[0], k[1], k[2])).collect::<Vec<_>>().join(";") };
         sink.case(cl.join(" "), impl_line, lines > 1);
     }
+    // ---- the checksum / XML tools on files of the writer (C01 generator) and of other producers,
+    //      intact, damaged, and altered-then-resealed (all page checksums valid again)
+    let mut files: Vec<(String, Vec<u8>)> = vec![];
+    let nprog = if thorough { 40 } else { 8 };
+    let mut tries = 0;
+    while files.len() < nprog && tries < nprog * 5 {
+        tries += 1;
+        let prog = {
+            let mut g = Gen { rng: &mut rng, exts: vec![], n: 0 };
+            g.program(20)
+        };
+        let dev = SimDev::new(vec![]);
+        let run = execute(&prog, &dev);
+        if run.panicked || run.results.last().map(|s| s != "ok").unwrap_or(true) {
+            continue;
+        }
+        files.push((format!("written{}", files.len()), run.file));
+    }
+    for (n, b) in crate::eng_reader::bundled_files(if thorough { 300_000 } else { 20_000 }) {
+        files.push((n, b));
+    }
+    let pages_ok = |f: &[u8]| -> bool { !f.is_empty() && f.len() % 1024 == 0 && f.chunks(1024).all(|p| crate::dev::ref_crc32c(&p[..1020]).to_be_bytes() == p[1020..1024]) };
+    let reseal = |f: &mut Vec<u8>, page: usize| {
+        let c = crate::dev::ref_crc32c(&f[page * 1024..page * 1024 + 1020]).to_be_bytes();
+        f[page * 1024 + 1020..page * 1024 + 1024].copy_from_slice(&c);
+    };
+    for (k, (name, file)) in files.iter().enumerate() {
+        if file.len() < 1024 || file.len() % 1024 != 0 {
+            continue;
+        }
+        let npages = file.len() / 1024;
+        let mut variants: Vec<(String, Vec<u8>)> = vec![("intact".into(), file.clone())];
+        {
+            let mut f = file.clone();
+            let pos = rng.below(f.len() as u64) as usize;
+            f[pos] ^= 1 << rng.below(8);
+            variants.push((format!("bitflip@{pos}"), f));
+        }
+        {
+            let mut f = file.clone();
+            let p = rng.below(npages as u64) as usize;
+            f[p * 1024 + 1020 + rng.below(4) as usize] ^= 0x80;
+            variants.push((format!("stored-crc@page{p}"), f));
+        }
+        {
+            let mut f = file.clone();
+            let p = rng.below(npages as u64) as usize;
+            for b in &mut f[p * 1024..p * 1024 + 1024] {
+                *b = 0;
+            }
+            variants.push((format!("zeroed-page{p}"), f));
+        }
+        // header fields altered and page 0 resealed: every page checksum is valid
+        for (what, off, val) in [("signature", 0usize, b'X'), ("major", 8, 2), ("minor", 12, 1), ("xml-offset", 24, 0xff), ("xml-length", 33, 0x7f), ("phys-length", 16, 1)] {
+            let mut f = file.clone();
+            f[off] = val;
+            reseal(&mut f, 0);
+            variants.push((format!("resealed-{what}"), f));
+        }
+        {
+            // payload altered in a random page and resealed
+            let mut f = file.clone();
+            let p = rng.below(npages as u64) as usize;
+            let pos = p * 1024 + rng.below(1020) as usize;
+            if p > 0 || pos >= 48 {
+                f[pos] ^= 0x55;
+                reseal(&mut f, p);
+                variants.push((format!("resealed-payload@{pos}"), f));
+            }
+        }
+        for (vn, f) in variants {
+            sink.oracle_evals += 1;
+            let path = format!("{dir}/t{k}.e57");
+            std::fs::write(&path, &f).ok();
+            let case_id = format!("toolfile source={name} variant={vn} seed={seed}");
+            let expect_ok = pages_ok(&f);
+            let ok = Command::new(&check_crc).arg(&path).output().map(|o| o.status.success()).unwrap_or(!expect_ok);
+            if ok != expect_ok {
+                sink.fail("C20", if expect_ok { "tools/check-crc-rejects-valid-pages" } else { "tools/check-crc-accepts-damaged-pages" }, &case_id, &format!("e57-check-crc exit success={ok}, all page checksums valid={expect_ok}"));
+            }
+            let lib = e57::E57Reader::raw_xml(std::io::Cursor::new(f.clone()));
+            let out = Command::new(&extract_xml).arg(&path).output();
+            match (&lib, out) {
+                (Ok(x), Ok(o)) if o.status.success() && &o.stdout == x => {}
+                (Err(_), Ok(o)) if !o.status.success() => {}
+                _ => sink.fail("C20", "tools/extract-xml", &case_id, "e57-extract-xml does not behave like raw_xml() (same bytes, or failure exactly when the library fails)"),
+            }
+            sink.stat(&format!("toolfile_{}", vn.split('@').next().unwrap_or("")));
+        }
+    }
     let _ = std::fs::remove_dir_all(&dir);
 }
